@@ -67,6 +67,9 @@ class PathExec(object):
       elif len(vals) == 1 and isinstance(vals[0], ast.UnaryOp) and isinstance(vals[0].op, ast.USub) and \
           isinstance(vals[0].operand, ast.Constant) and isinstance(vals[0].operand.value, (int, float)):
         out[name] = ('const', -vals[0].operand.value)
+      elif len(vals) == 1 and isinstance(vals[0], ast.Call) and isinstance(vals[0].func, ast.Name) and vals[0].func.id == 'float' and \
+          len(vals[0].args) == 1 and isinstance(vals[0].args[0], ast.Constant) and vals[0].args[0].value in ('inf', 'Inf', 'infinity'):
+        out[name] = ('const', float('inf'))
     return out
 
   def ev(self, expr, env):
@@ -99,6 +102,8 @@ class PathExec(object):
       return t
     if t in self.assume:
       return self.assume[t]
+    if t == ('call', 'float', ('const', 'inf')):
+      return ('const', float('inf'))
     # TABLE[k] / TABLE.get(k[, default]) with a constant key and a literal module-level TABLE
     tab = key = default = None
     has_default = False
@@ -154,11 +159,12 @@ class PathExec(object):
     return ('truth', self.ev(test, env))
 
   # ------------------------------------------------------------ walking
-  def run(self, targets):
-    """yield a Hit for every path prefix that arrives at a target node."""
+  def run(self, targets, start=None):
+    """yield a Hit for every path prefix that arrives at a target node (paths begin at the function entry, or at each of
+    the ``start`` nodes with an empty environment)."""
     targets = set(targets)
     count = [0]
-    stack = [(self.g.entry, {}, (), (), {}, frozenset())]
+    stack = [(n0, {}, (), (), {}, frozenset()) for n0 in (start if start else [self.g.entry])]
     while stack:
       node, env, conds, trail, visits, facts = stack.pop()
       if node in targets:
